@@ -250,6 +250,9 @@ class Undecided(Exception):
     """the scenario met a construct outside the exact model: no verdict for this scenario"""
 
 
+_WORLDS = []
+
+
 class World:
     """One interpreter with the whole-program model switched on."""
 
@@ -270,6 +273,7 @@ class World:
         self.M.user_call_hook = self._hook
         self.solves = []  # (A, b) handed to a linear backend
         self.ET = repo.cls(ELEMTYPE)
+        _WORLDS.append(self)
 
     # -- hooks ---------------------------------------------------------------------------------------------------------
     def _hook(self, fn, args, kwargs):
@@ -417,7 +421,16 @@ _SCEN = []
 
 
 def _run_one(k):
-    """worker (forked): returns (status, message) with status in ok / fail / undecided"""
+    """worker (forked): returns (status, message, functions interpreted) with status in ok / fail / undecided"""
+    del _WORLDS[:]
+    st, msg = _run_one_inner(k)
+    funcs = set()
+    for w in _WORLDS:
+        funcs |= set(w.I.trace_funcs)
+    return st, msg, sorted(funcs)
+
+
+def _run_one_inner(k):
     label, anchor, thunk = _SCEN[k]
     try:
         msg = thunk()
@@ -454,6 +467,18 @@ def run_scenarios(ctx, rule, scenarios, min_decided=None, jobs=None):
         with mp.get_context("fork").Pool(jobs) as pool:
             results = pool.map(_run_one, range(len(_SCEN)), chunksize=1)
     decided = 0
+    interpreted = set()
+    for res in results:
+        interpreted |= set(res[2])
+    results = [(st, msg) for st, msg, _ in results]
+    # what the scenarios walked through belongs to the evidence: functions interpreted, files they live in
+    for q in interpreted:
+        rule.analysed(q)
+        try:
+            ctx.repo.consulted.add(ctx.repo.func(q).file)
+        except Exception:
+            pass
+    ctx.extra.setdefault("e2e_functions_interpreted", {})[rule.id] = len(interpreted)
     for (label, anchor, thunk), (status, msg) in zip(_SCEN, results):
         rule.instance(fn=anchor.qualname if anchor is not None else None)
         if status == "undecided":
